@@ -26,6 +26,8 @@ type SchedScenario struct {
 	TrackMem bool      // the reported memory figure is part of the outcome
 	NoEager bool       // spawned goroutines are not advanced to their first point at spawn (their start is a scheduling point)
 	MaxExec int        // cap on executions (0 = none); hitting it is reported as non-exhaustive
+	After   []Action   // executed one by one (connection 0, default schedule, each to quiescence) after the concurrent part
+	Restorable bool    // the outcome also contains what a restart on the resulting files would restore (Cfg must name a data directory)
 }
 
 type ctlInstance struct {
@@ -269,6 +271,16 @@ func runSchedule(sc *SchedScenario, prefix []int, serialOrder [][2]int, trace bo
 		ph = verifrt.RunPhase(ch, names, mains...)
 		out.Deadlock, out.Livelock, out.Blocked, out.Panics, out.Stuck, out.Trunc, out.Points = ph.Deadlock, ph.Livelock, ph.Blocked, ph.Panics, ph.Stuck, ph.Truncated, ph.Points
 	}
+	if !out.Deadlock && !out.Stuck && !out.Livelock && len(out.Panics) == 0 {
+		for _, a := range sc.After {
+			a := a
+			ph = verifrt.RunPhase(verifrt.FirstChooser, []string{"after"}, func() { in.doCtl(0, a) })
+			if ph.Deadlock || len(ph.Panics) > 0 || ph.Stuck {
+				out.Deadlock, out.Panics, out.Stuck, out.Blocked = ph.Deadlock, ph.Panics, ph.Stuck, ph.Blocked
+				break
+			}
+		}
+	}
 	if trace {
 		out.Trace = verifrt.TakeTrace()
 	}
@@ -288,8 +300,32 @@ func runSchedule(sc *SchedScenario, prefix []int, serialOrder [][2]int, trace bo
 		if sc.TrackMem {
 			out.Final += fmt.Sprintf(" memUsed=%d", d.MemUsed)
 		}
+		if len(d.PubSub) > 0 {
+			// the subscription table is part of the outcome: two entries for one name, or a lost subscriber, is not
+			// something any serial order produces
+			out.Final += " pubsub=" + strings.Join(d.PubSub, ";")
+		}
 		if d.StateCopy || d.StateMutation || d.SnapshotInProg || d.RewriteInProg {
 			out.Final += fmt.Sprintf(" flags(copy=%v mut=%v snap=%v rewrite=%v)", d.StateCopy, d.StateMutation, d.SnapshotInProg, d.RewriteInProg)
+		}
+		if sc.Restorable {
+			// what a restart on these files restores (free mode, on a copy of the file system)
+			if fs := verifrt.FS(); fs != nil {
+				cp := fs.Clone()
+				verifrt.ResetTracking()
+				verifrt.SetFS(cp)
+				rcfg := sc.Cfg
+				rcfg.RestoreSnapshot = true
+				rcfg.Conns = -1
+				if rin, err, pan := safeNewInstance(rcfg); err == nil && pan == "" {
+					rin.Quiesce()
+					out.Final += " restorable=" + alphaOf(rin.Dump()).String()
+					rin.Close()
+				} else {
+					out.Final += fmt.Sprintf(" restorable=<restart failed: %v %s>", err, firstLine(pan))
+				}
+				verifrt.SetFS(fs)
+			}
 		}
 	}
 	for _, c := range in.conns {
